@@ -172,7 +172,9 @@ def corpus(tier, seed=0):
         only = e.opts.get("backends")
         if only is not None and "java" not in only:
             continue
-        if e.group in ("borderline", "witness"):
+        if e.group in ("borderline", "witness", "generated"):
+            # the Java backend is exercised on the hand-written and repository-shipped descriptions only: the generated
+            # (seeded) corpus would make the set of its known compile failures depend on the seed
             e.opts = dict(e.opts, backends=[b for b in (only or ["rust", "python", "cxx"])])
             continue
         ex = java_exclusions(e.text)
